@@ -1,11 +1,28 @@
 #!/usr/bin/env python3
 """Sensitivity runner: apply each deliberate property-breaking mutation to /repo's working tree,
 run the quick check of the property it is meant to break, and undo it (git checkout).
-usage: tools/mutants.py [--prop C08] [--id M08a ...] [--tier quick]
+usage: tools/mutants.py [--prop C08] [--id M08a ...] [--tier quick] [--scratch TAG]
+With --scratch the mutations are applied to a scratch worktree of /repo and checked by a scratch
+snapshot of /verif pointed at it (development aid; /repo stays untouched).
 Results are appended to mutants/results.jsonl; a summary table is printed."""
-import json, subprocess, sys, time, os, re
+import json, subprocess, sys, time, os, re, shutil
 ROOT = os.path.dirname(os.path.dirname(os.path.abspath(__file__)))
 REPO = "/repo"
+CHECK = os.path.join(ROOT, "check")
+
+def scratch(tag):
+    global REPO, CHECK
+    snap, wt = f"/tmp/vsnap-{tag}", f"/tmp/rwt-{tag}"
+    shutil.rmtree(snap, ignore_errors=True)
+    subprocess.run(f"git -C /repo worktree remove --force {wt}; git -C /repo worktree prune", shell=True, capture_output=True)
+    os.makedirs(snap)
+    subprocess.run(f"rsync -a --exclude /.git --exclude /replays --exclude /out --exclude /seeded --exclude /mutants --exclude /evidence {ROOT}/ {snap}/", shell=True, check=True)
+    subprocess.run(f"git -C /repo worktree add --detach {wt} HEAD", shell=True, check=True, capture_output=True)
+    ct = open(f"{snap}/sim/Cargo.toml").read().replace('path = "/repo"', f'path = "{wt}"')
+    open(f"{snap}/sim/Cargo.toml", "w").write(ct)
+    os.makedirs(f"{snap}/evidence", exist_ok=True)
+    REPO, CHECK = wt, f"{snap}/check"
+    return snap, wt
 
 def load():
     ms = []
@@ -16,13 +33,15 @@ def load():
 
 def main():
     args = sys.argv[1:]
-    props, ids, tier = set(), set(), "quick"
+    props, ids, tier, tag = set(), set(), "quick", None
     i = 0
     while i < len(args):
         if args[i] == "--prop": props.add(args[i+1]); i += 2
         elif args[i] == "--id": ids.add(args[i+1]); i += 2
         elif args[i] == "--tier": tier = args[i+1]; i += 2
+        elif args[i] == "--scratch": tag = args[i+1]; i += 2
         else: i += 1
+    sc = scratch(tag) if tag else None
     assert subprocess.run(["git", "-C", REPO, "status", "--porcelain", "--untracked-files=no"], capture_output=True, text=True).stdout.strip() == "", "repo dirty"
     rows = []
     for m in load():
@@ -39,7 +58,8 @@ def main():
             t0 = time.time()
             env = dict(os.environ)
             env.setdefault("VERIF_MAX_S", "120")
-            r = subprocess.run([os.path.join(ROOT, "check"), m["prop"], tier], capture_output=True, text=True, env=env)
+            env.setdefault("VMSIM_HANG_S", "60")
+            r = subprocess.run([CHECK, m["prop"], tier], capture_output=True, text=True, env=env)
             dt = time.time() - t0
             viol = [l for l in r.stdout.splitlines() if l.startswith("VIOLATION")]
             classes = sorted(set(re.findall(r"^\s+(C\d+/\S+)", r.stderr, re.M)))
@@ -52,6 +72,9 @@ def main():
         print(json.dumps(row), flush=True)
         with open(os.path.join(ROOT, "mutants", "results.jsonl"), "a") as f:
             f.write(json.dumps(row) + "\n")
+    if sc:
+        subprocess.run(f"git -C /repo worktree remove --force {sc[1]}; git -C /repo worktree prune", shell=True, capture_output=True)
+        shutil.rmtree(sc[0], ignore_errors=True)
     caught = sum(1 for r in rows if r["exit"] == 1)
     print(f"caught {caught}/{len(rows)}")
     # leave no replay files of mutants behind
